@@ -51,6 +51,7 @@ func Run(cfg core.Config, scope core.Scope) *core.Result {
 		"GOPROTO.capture: a variable of the spawning function that a goroutine assigns is written under a mutex that also covers every other concurrent access, or by a single goroutine whose completion (WaitGroup) every other access waits for",
 		"GOPROTO.scratch: a buffer allocated with make in the spawning function is not written (handed whole to a call, used as copy destination, or stored at an index that does not depend on the goroutine) by a goroutine that is started more than once, unless under a lock",
 		"GOPROTO.semcap: a channel used as a counting semaphore (sent to before a go statement, received from inside the goroutine) is created with a capacity that is provably at least 1",
+		"GOPROTO.accumzero: a destination parameter that a function accumulates into while collecting results from a channel (dst[k] += …, or dst.Set*(…, … + dst.At(…))) is zeroed on every path before the collection, in the function itself or in every caller of an unexported function",
 		"GOPROTO.wg: every WaitGroup Add is matched by goroutines that defer Done, with a count equal to the spawning loop's trip count, and Wait is reached",
 		"GOPROTO.close: every channel that is ranged over or used as a quit signal is closed by exactly one site that is reached on all exits of its function",
 		"GOPROTO.sibling: the serial and concurrent implementations dispatched from one call site read the same settings parameters")
@@ -82,6 +83,7 @@ func Run(cfg core.Config, scope core.Scope) *core.Result {
 					res.Sample(map[string]any{"rule": "GOPROTO", "func": c.name, "go_statements": len(c.gos)})
 				}
 				c.siblings()
+				c.accumZero()
 			}
 		}
 	}
@@ -750,6 +752,217 @@ func (c *fnCtx) semaphores() {
 				Msg: fmt.Sprintf("%s is a counting semaphore (a token is sent before each goroutine is started and returned by the goroutine) created with %s, which is not provably >= 1: with capacity 0 the first send blocks before any worker exists and the call never returns", id.Name, what)})
 		}
 	}
+}
+
+// accumZero implements GOPROTO.accumzero. The serial arms assign every
+// element of the destination; the concurrent arms add the workers' partial
+// results to it as they arrive, so whatever the destination held before the
+// call becomes part of the answer unless it was zeroed first.
+func (c *fnCtx) accumZero() {
+	params := map[types.Object]bool{}
+	for _, fl := range c.fd.Type.Params.List {
+		for _, n := range fl.Names {
+			if o := c.info.Defs[n]; o != nil {
+				params[o] = true
+			}
+		}
+	}
+	rootParam := func(e ast.Expr) types.Object {
+		for {
+			switch x := ast.Unparen(e).(type) {
+			case *ast.Ident:
+				if o := core.ObjOf(c.info, x); params[o] {
+					return o
+				}
+				return nil
+			case *ast.IndexExpr:
+				e = x.X
+			case *ast.SelectorExpr:
+				e = x.X
+			case *ast.StarExpr:
+				e = x.X
+			default:
+				return nil
+			}
+		}
+	}
+	// collection loops: range over a channel, or a loop whose body receives
+	var loops []ast.Stmt
+	ast.Inspect(c.fd.Body, func(n ast.Node) bool {
+		switch l := n.(type) {
+		case *ast.FuncLit:
+			return false
+		case *ast.RangeStmt:
+			if tv, ok := c.info.Types[l.X]; ok {
+				if _, isChan := tv.Type.Underlying().(*types.Chan); isChan {
+					loops = append(loops, l)
+				}
+			}
+		case *ast.ForStmt:
+			recv := false
+			ast.Inspect(l.Body, func(x ast.Node) bool {
+				if _, isLit := x.(*ast.FuncLit); isLit {
+					return false
+				}
+				if u, ok := x.(*ast.UnaryExpr); ok && u.Op == token.ARROW {
+					recv = true
+				}
+				return !recv
+			})
+			if recv {
+				loops = append(loops, l)
+			}
+		}
+		return true
+	})
+	for _, loop := range loops {
+		var body *ast.BlockStmt
+		switch l := loop.(type) {
+		case *ast.RangeStmt:
+			body = l.Body
+		case *ast.ForStmt:
+			body = l.Body
+		}
+		// accumulated parameters
+		acc := map[types.Object]ast.Node{}
+		reads := map[types.Object]bool{}
+		ast.Inspect(body, func(n ast.Node) bool {
+			switch x := n.(type) {
+			case *ast.CallExpr:
+				if sel, ok := x.Fun.(*ast.SelectorExpr); ok && (sel.Sel.Name == "At" || sel.Sel.Name == "AtVec") {
+					if o := rootParam(sel.X); o != nil {
+						reads[o] = true
+					}
+				}
+			}
+			return true
+		})
+		ast.Inspect(body, func(n ast.Node) bool {
+			switch x := n.(type) {
+			case *ast.AssignStmt:
+				if x.Tok == token.ADD_ASSIGN || x.Tok == token.SUB_ASSIGN {
+					for _, l := range x.Lhs {
+						if ix, ok := l.(*ast.IndexExpr); ok {
+							if o := rootParam(ix.X); o != nil {
+								acc[o] = x
+							}
+						}
+					}
+				}
+			case *ast.CallExpr:
+				if sel, ok := x.Fun.(*ast.SelectorExpr); ok && strings.HasPrefix(sel.Sel.Name, "Set") {
+					if o := rootParam(sel.X); o != nil && reads[o] {
+						acc[o] = x
+					}
+				}
+			}
+			return true
+		})
+		for o, at := range acc {
+			c.res.Obligations++
+			c.res.Count("destinations_accumulated_from_channels", 1)
+			if c.zeroedBefore(c.fd, o.Name(), loop) {
+				continue
+			}
+			// unexported function: every caller zeroes the argument first
+			ok := false
+			if !c.fd.Name.IsExported() {
+				ok = c.callersZero(o)
+			}
+			if !ok {
+				c.res.Add(core.Finding{Rule: "GOPROTO.accumzero", Key: fmt.Sprintf("GOPROTO.accumzero|%s|%s", c.name, o.Name()), Pos: core.Pos(at.Pos()), Func: c.name,
+					Msg: fmt.Sprintf("%s adds the results arriving on a channel to %s, but %s is not zeroed before the collection starts (neither here nor in every caller): a reused destination keeps its old contents in the answer, unlike the serial arm, which assigns every element", c.fd.Name.Name, o.Name(), o.Name())})
+			}
+		}
+	}
+}
+
+// zeroedBefore: some statement before `before` in fd (same function, any
+// nesting, source order) zeroes name: name.Zero(), name[i] = 0 or
+// name.Set*(…, 0) in a loop.
+func (c *fnCtx) zeroedBefore(fd *ast.FuncDecl, name string, before ast.Node) bool {
+	isZero := func(e ast.Expr) bool {
+		tv, ok := c.info.Types[e]
+		return ok && tv.Value != nil && constant.Sign(constant.ToFloat(tv.Value)) == 0 && tv.Value.Kind() != constant.Bool && tv.Value.Kind() != constant.String
+	}
+	found := false
+	ast.Inspect(fd.Body, func(n ast.Node) bool {
+		if n == nil || found {
+			return false
+		}
+		if before != nil && n.Pos() >= before.Pos() {
+			return false
+		}
+		switch x := n.(type) {
+		case *ast.FuncLit:
+			return false
+		case *ast.CallExpr:
+			if sel, ok := x.Fun.(*ast.SelectorExpr); ok {
+				if id, ok := ast.Unparen(sel.X).(*ast.Ident); ok && id.Name == name {
+					if sel.Sel.Name == "Zero" {
+						found = true
+					}
+					if strings.HasPrefix(sel.Sel.Name, "Set") && len(x.Args) > 0 && isZero(x.Args[len(x.Args)-1]) {
+						found = true
+					}
+				}
+			}
+		case *ast.AssignStmt:
+			if x.Tok == token.ASSIGN && len(x.Lhs) == 1 && len(x.Rhs) == 1 && isZero(x.Rhs[0]) {
+				if ix, ok := x.Lhs[0].(*ast.IndexExpr); ok {
+					if id, ok := ast.Unparen(ix.X).(*ast.Ident); ok && id.Name == name {
+						found = true
+					}
+				}
+			}
+		}
+		return true
+	})
+	return found
+}
+
+// callersZero: every call of c.fd in the package passes, for parameter p, an
+// identifier that the caller zeroes before the call.
+func (c *fnCtx) callersZero(p types.Object) bool {
+	idx := -1
+	k := 0
+	for _, fl := range c.fd.Type.Params.List {
+		for _, n := range fl.Names {
+			if c.info.Defs[n] == p {
+				idx = k
+			}
+			k++
+		}
+	}
+	self, _ := c.info.Defs[c.fd.Name].(*types.Func)
+	if idx < 0 || self == nil {
+		return false
+	}
+	calls, ok := 0, true
+	for _, f := range c.pkg.Syntax {
+		for _, d := range f.Decls {
+			fd, isFn := d.(*ast.FuncDecl)
+			if !isFn || fd.Body == nil {
+				continue
+			}
+			ast.Inspect(fd.Body, func(n ast.Node) bool {
+				call, isCall := n.(*ast.CallExpr)
+				if !isCall {
+					return true
+				}
+				if fn, _ := typeutil.Callee(c.info, call).(*types.Func); fn != self || idx >= len(call.Args) {
+					return true
+				}
+				calls++
+				id, isID := ast.Unparen(call.Args[idx]).(*ast.Ident)
+				if !isID || !c.zeroedBefore(fd, id.Name, call) {
+					ok = false
+				}
+				return true
+			})
+		}
+	}
+	return calls > 0 && ok
 }
 
 func (c *fnCtx) stmtOf(n ast.Node) ast.Node {
